@@ -9,10 +9,16 @@ package main
 import (
 	"bufio"
 	"bytes"
+	"crypto/ecdsa"
+	"crypto/elliptic"
+	crand "crypto/rand"
 	"crypto/tls"
+	"crypto/x509"
+	"crypto/x509/pkix"
 	"errors"
 	"fmt"
 	"io"
+	"math/big"
 	"math/rand"
 	"net"
 	"net/http"
@@ -55,12 +61,13 @@ const (
 const (
 	uStay = iota
 	uClose
+	uHalf
 )
 
 var kindName = []string{"tcp", "sni", "dyn", "ws"}
 var kindCoq = []string{"KTcp", "KSni", "KDyn", "KWs"}
 var cendCoq = []string{"CStay", "CHalf", "CClose"}
-var uendCoq = []string{"UStay", "UClose"}
+var uendCoq = []string{"UStay", "UClose", "UHalf"}
 
 // ---------- scripted client connection ----------
 type timeoutErr struct{}
@@ -84,9 +91,11 @@ type cliConn struct {
 	closed    bool // the proxy closed the connection
 	eofGiven  bool
 	rdExpired bool
+	rdDeadline time.Time // a read deadline in the future (tcp.Server ReadTimeout, or a deadline armed by mistake)
 	local     *net.TCPAddr
 	remote    *net.TCPAddr
 	lastProg  time.Time
+	wrClosed  bool  // the proxy closed the write side (CloseWrite): the client sees EOF, nothing more can be written
 	finErr    error // non-nil: the Read that returns the client's last bytes also returns this error
 	finGiven  bool
 }
@@ -104,7 +113,7 @@ func (c *cliConn) Read(p []byte) (int, error) {
 		if c.closed {
 			return 0, net.ErrClosed
 		}
-		if c.rdExpired {
+		if c.rdExpired || (!c.rdDeadline.IsZero() && !time.Now().Before(c.rdDeadline)) {
 			return 0, timeoutErr{}
 		}
 		if len(p) == 0 {
@@ -157,6 +166,9 @@ func (c *cliConn) Write(p []byte) (int, error) {
 	if c.closed {
 		return 0, net.ErrClosed
 	}
+	if c.wrClosed {
+		return 0, errors.New("write: broken pipe")
+	}
 	if c.end == cClose && c.eofGiven {
 		c.dropped += len(p)
 		return len(p), nil
@@ -165,6 +177,21 @@ func (c *cliConn) Write(p []byte) (int, error) {
 	c.lastProg = time.Now()
 	c.cond.Broadcast()
 	return len(p), nil
+}
+
+// cliConnCW is a client connection that can be closed for writing only (like *net.TCPConn
+// and *tls.Conn); the plain cliConn cannot (like the wrapper of proxy/tcp/server.go).
+type cliConnCW struct{ *cliConn }
+
+func (c cliConnCW) CloseWrite() error {
+	c.mu.Lock()
+	defer c.mu.Unlock()
+	if c.closed {
+		return net.ErrClosed
+	}
+	c.wrClosed = true
+	c.lastProg = time.Now()
+	return nil
 }
 
 func (c *cliConn) Close() error {
@@ -180,6 +207,15 @@ func (c *cliConn) SetDeadline(t time.Time) error { return c.SetReadDeadline(t) }
 func (c *cliConn) SetReadDeadline(t time.Time) error {
 	c.mu.Lock()
 	c.rdExpired = !t.IsZero() && !t.After(time.Now())
+	c.rdDeadline = time.Time{}
+	if !t.IsZero() && t.After(time.Now()) {
+		c.rdDeadline = t
+		time.AfterFunc(time.Until(t)+time.Millisecond, func() {
+			c.mu.Lock()
+			c.cond.Broadcast()
+			c.mu.Unlock()
+		})
+	}
 	c.cond.Broadcast()
 	c.mu.Unlock()
 	return nil
@@ -245,6 +281,10 @@ type script struct {
 	BadPref bool
 	Slow    bool // the upstream consumes slowly (32 KiB per millisecond)
 	Bulk    bool // multi-MiB client stream: only its structure goes to Coq
+	RT, WT  time.Duration // tcp.Server ReadTimeout / WriteTimeout of the listener (tcp paths)
+	TLSUp   bool          // websocket: the upstream speaks TLS (target scheme https: the relay dials with tls.Dial)
+	Barrier int           // the client sends its last Barrier segments only after it has received the upstream's whole output
+	CliCW   bool // the client connection handed to the proxy has a CloseWrite method
 	Fin     int  // 0: EOF in a Read of its own; 1: the last bytes come with io.EOF; 9: with another error
 	HeadLen int  // bulk: the first HeadLen bytes of Stream are the literal head (ClientHello)
 }
@@ -263,6 +303,9 @@ func startUpstream(s *script) *upstream {
 		conn, err := ln.Accept()
 		if err != nil {
 			return
+		}
+		if s.TLSUp {
+			conn = tls.Server(conn, upstreamTLS)
 		}
 		u.mu.Lock()
 		u.accepted = true
@@ -366,6 +409,10 @@ func startUpstream(s *script) *upstream {
 			<-rdDone
 			return
 		}
+		if s.UEnd == uHalf {
+			// done sending, still reading
+			conn.(interface{ CloseWrite() error }).CloseWrite()
+		}
 		<-rdDone
 		conn.Close()
 	}()
@@ -392,6 +439,8 @@ func (u *upstream) snapshot() (recv []byte, accepted, eof bool, last time.Time) 
 
 type observation struct {
 	Conn     bool
+	ClEOF    bool // the proxy closed the write side of the client connection: the client saw EOF after the upstream's data
+	Ended    bool // the tunnel returned by itself, before the harness stopped the connection
 	UpClean  bool // the upstream's stream ended with a clean EOF
 	Up       []byte
 	Cl       []byte
@@ -438,7 +487,11 @@ func runOnce(s *script) observation {
 	if s.Kind == kWS {
 		steps = append(steps, cstep{data: []byte(wsReq)}, cstep{wait: s.WSHead})
 	}
-	for _, seg := range splitSegs(s.Stream, s.Segs) {
+	segs := splitSegs(s.Stream, s.Segs)
+	for i, seg := range segs {
+		if s.Barrier > 0 && i == len(segs)-s.Barrier {
+			steps = append(steps, cstep{wait: len(s.Reply)})
+		}
 		if len(seg) > 0 {
 			steps = append(steps, cstep{data: seg})
 		}
@@ -453,22 +506,66 @@ func runOnce(s *script) observation {
 	case 9:
 		cli.finErr = errors.New("read: connection reset by peer")
 	}
+	var pin net.Conn = cli
+	if s.CliCW {
+		pin = cliConnCW{cli}
+	}
+	forced := false
 	served := make(chan bool, 1)
 	var wsLn *oneListener
 	go func() {
 		p, _ := vh.Recover(func() {
 			switch s.Kind {
-			case kTCP:
-				(&tcp.Proxy{DialTimeout: 2 * time.Second, Lookup: func(string) *route.Target { return target }}).ServeTCP(cli)
-			case kSNI:
-				(&tcp.SNIProxy{DialTimeout: 2 * time.Second, Lookup: func(string) *route.Target { return target }}).ServeTCP(cli)
-			case kDyn:
-				(&tcp.DynamicProxy{DialTimeout: 2 * time.Second, Lookup: func(string) *route.Target { return target }}).ServeTCP(cli)
+			case kTCP, kSNI, kDyn:
+				// through the real tcp.Server: the handler gets the server's timeout wrapper around the
+				// scripted connection, exactly as on a listener
+				lookup := func(string) *route.Target { return target }
+				var h tcp.Handler
+				switch s.Kind {
+				case kTCP:
+					h = &tcp.Proxy{DialTimeout: 2 * time.Second, Lookup: lookup}
+				case kSNI:
+					h = &tcp.SNIProxy{DialTimeout: 2 * time.Second, Lookup: lookup}
+				default:
+					h = &tcp.DynamicProxy{DialTimeout: 2 * time.Second, Lookup: lookup}
+				}
+				hpanic := make(chan interface{}, 1)
+				guarded := tcp.HandlerFunc(func(in net.Conn) error {
+					defer func() {
+						if v := recover(); v != nil {
+							hpanic <- v
+							in.Close()
+						}
+					}()
+					return h.ServeTCP(in)
+				})
+				ln := &oneListener{ch: make(chan net.Conn, 1), done: make(chan struct{})}
+				ln.ch <- pin
+				srv := &tcp.Server{Handler: guarded, ReadTimeout: s.RT, WriteTimeout: s.WT}
+				go srv.Serve(ln)
+				for {
+					_, closed, _, _ := cli.snapshot()
+					if closed {
+						break
+					}
+					time.Sleep(time.Millisecond)
+				}
+				srv.Close()
+				select {
+				case v := <-hpanic:
+					panic(v)
+				default:
+				}
 			case kWS:
 				wt := &route.Target{URL: &url.URL{Scheme: "http", Host: u.ln.Addr().String()}}
-				px := &proxy.HTTPProxy{Transport: http.DefaultTransport, Lookup: func(*http.Request) *route.Target { return wt }}
+				if s.TLSUp {
+					wt.URL.Scheme = "https"
+					wt.TLSSkipVerify = true
+				}
+				insecure := &http.Transport{TLSClientConfig: &tls.Config{InsecureSkipVerify: true}}
+				px := &proxy.HTTPProxy{Transport: http.DefaultTransport, InsecureTransport: insecure, Lookup: func(*http.Request) *route.Target { return wt }}
 				wsLn = &oneListener{ch: make(chan net.Conn, 1), done: make(chan struct{})}
-				wsLn.ch <- cli
+				wsLn.ch <- pin
 				srv := &http.Server{Handler: px}
 				go srv.Serve(wsLn)
 				// the handler returns when the relay ends; the server then closes the hijacked conn itself (defer in.Close())
@@ -512,10 +609,11 @@ func runOnce(s *script) observation {
 		idle := time.Since(last)
 		full := upN >= wantUp && clN >= wantCl
 		// nobody will finish: stop when everything expected has arrived and things are quiet, or nothing moves any more
-		if (full && idle > 40*time.Millisecond && s.CEnd == cStay) || idle > 700*time.Millisecond || time.Since(start) > 15*time.Second {
+		if (full && idle > 150*time.Millisecond && s.CEnd == cStay) || idle > 1300*time.Millisecond || time.Since(start) > 15*time.Second {
 			if time.Since(start) > 15*time.Second {
 				obs.TimedOut = true
 			}
+			forced = true
 			cli.Close()
 		}
 	}
@@ -539,6 +637,10 @@ func runOnce(s *script) observation {
 		}
 	}
 	obs.Panicked = panicked
+	obs.Ended = !forced
+	cli.mu.Lock()
+	obs.ClEOF = cli.wrClosed
+	cli.mu.Unlock()
 	obs.Cl, _, _, _ = cli.snapshot()
 	obs.Up, obs.Conn, _, _ = u.snapshot()
 	u.mu.Lock()
@@ -548,7 +650,7 @@ func runOnce(s *script) observation {
 }
 
 func sameObs(a, b observation) bool {
-	return a.Conn == b.Conn && a.UpClean == b.UpClean && bytes.Equal(a.Up, b.Up) && bytes.Equal(a.Cl, b.Cl) && a.Panicked == b.Panicked
+	return a.Conn == b.Conn && a.Ended == b.Ended && a.ClEOF == b.ClEOF && a.UpClean == b.UpClean && bytes.Equal(a.Up, b.Up) && bytes.Equal(a.Cl, b.Cl) && a.Panicked == b.Panicked
 }
 
 // complete: both directions delivered everything a transparent tunnel would
@@ -789,6 +891,21 @@ func randAddr(r *rand.Rand) *net.TCPAddr {
 	}
 }
 
+// a throw-away certificate for TLS upstreams (the relay dials them with InsecureSkipVerify)
+var upstreamTLS = func() *tls.Config {
+	key, err := ecdsa.GenerateKey(elliptic.P256(), crand.Reader)
+	if err != nil {
+		panic(err)
+	}
+	tmpl := &x509.Certificate{SerialNumber: big.NewInt(1), Subject: pkix.Name{CommonName: "upstream.test"},
+		NotBefore: time.Now().Add(-time.Hour), NotAfter: time.Now().Add(24 * time.Hour), DNSNames: []string{"upstream.test"}}
+	der, err := x509.CreateCertificate(crand.Reader, tmpl, tmpl, &key.PublicKey, key)
+	if err != nil {
+		panic(err)
+	}
+	return &tls.Config{Certificates: []tls.Certificate{{Certificate: [][]byte{der}, PrivateKey: key}}}
+}()
+
 const wsHead101 = "HTTP/1.1 101 Switching Protocols\r\nUpgrade: websocket\r\nConnection: Upgrade\r\nSec-WebSocket-Accept: s3pPLMBiTxaQ9kYGzzhZRbK+xOo=\r\n\r\n"
 
 type gen struct {
@@ -858,9 +975,23 @@ func (g *gen) ending(s *script, which int) string {
 	case 5: // half-close racing with an early reply
 		s.CEnd, s.UEnd, s.UTrig = cHalf, uStay, uAtConnect
 		return "half-close-race"
-	default: // upstream talks first and closes at once, client data may still be on its way
+	case 6: // upstream talks first and closes at once, client data may still be on its way
 		s.CEnd, s.UEnd, s.UTrig = cStay, uClose, uAtConnect
 		return "upstream-first-close"
+	case 7: // the upstream half-closes after its output and keeps reading; the client keeps sending, then ends
+		s.CEnd, s.UEnd = []int{cStay, cHalf, cClose}[g.r.Intn(3)], uHalf
+		s.UTrig, s.UN = uAfterBytes, g.r.Intn(total+1)
+		if g.r.Intn(3) == 0 {
+			s.UTrig = uAtConnect
+		}
+		return "upstream-half-close-client-continues"
+	default: // both half-close: the upstream when it has everything and has replied, the client after sending
+		s.CEnd, s.UEnd, s.UTrig, s.UN = cHalf, uHalf, uAfterBytes, total
+		if g.r.Intn(2) == 0 {
+			s.UTrig = uOnEOF
+		}
+		s.CWait = s.UTrig == uAfterBytes && g.r.Intn(2) == 0
+		return "both-half-close"
 	}
 }
 
@@ -969,9 +1100,9 @@ func coqScript(s *script, o observation) string {
 	full := specUp(s)
 	lineLen := len(full) - len(s.Stream)
 	return vh.App("CTunnel", kindCoq[s.Kind], vh.Bool(s.PP), vh.Bool(is4), vh.HxS(ch), vh.HxS(sh), vh.HxS(cp), vh.HxS(sp),
-		coqStream(s.Stream, s.Lit), vh.List(segItems), vh.N(s.Fin), vh.Bool(s.CWait), cendCoq[s.CEnd], trig,
+		coqStream(s.Stream, s.Lit), vh.List(segItems), vh.N(s.Fin), vh.Bool(s.CliCW), vh.Bool(s.CWait), cendCoq[s.CEnd], trig,
 		coqStream(s.Reply, s.RLit), vh.N(s.RSeg1), vh.N(s.WSHead), uendCoq[s.UEnd],
-		vh.Bool(o.Conn), describe(o.Up, full, lineLen+s.Lit), describe(o.Cl, s.Reply, s.RLit))
+		vh.Bool(o.Conn), describe(o.Up, full, lineLen+s.Lit), describe(o.Cl, s.Reply, s.RLit), vh.Bool(o.Ended), vh.Bool(o.ClEOF))
 }
 
 // a multi-MiB connection: the head (PROXY line + ClientHello) goes to Coq byte for byte, the
@@ -1017,13 +1148,52 @@ func main() {
 				}
 			}
 		}
+		s.CliCW = r.Intn(2) == 0
+		// an upstream that half-closes while client bytes are still on their way, behind a client
+		// connection that cannot be closed for writing only, ends the tunnel (closeWrite -> io.EOF)
+		// and cuts the client's stream at a point only timing decides: kept out of the generated
+		// domain (see Model/Tunnel.v region_upstream_half_close)
+		if s.UEnd == uHalf {
+			total := len(specUp(s))
+			allBefore := s.UTrig == uOnEOF || (s.UTrig == uAfterBytes && s.UN >= total) || (s.UTrig == uAtConnect && total == 0)
+			if !allBefore {
+				s.CliCW = true
+			}
+		}
+		// forced interleaving: the client sends its last segments only after it has received the
+		// upstream's whole output, i.e. after the upstream has half-closed
+		if s.UEnd == uHalf && s.CliCW && !s.CWait && len(s.Segs) >= 2 {
+			b := 1 + r.Intn(min(3, len(s.Segs)-1))
+			tail := 0
+			for _, n := range s.Segs[len(s.Segs)-b:] {
+				tail += n
+			}
+			if s.UTrig == uAtConnect || (s.UTrig == uAfterBytes && s.UN <= len(specUp(s))-tail) {
+				s.Barrier = b
+				class += "+client-sends-rest-after-upstream-eof"
+			}
+		}
+		// listener timeouts longer than every scripted pause on the side they guard (a write
+		// timeout guards writes only: it must not cut a client that is silently reading)
+		if s.Kind != kWS && r.Intn(4) == 0 {
+			tc := [][2]time.Duration{{0, 50 * time.Millisecond}, {3 * time.Second, 50 * time.Millisecond}, {3 * time.Second, 0}}[r.Intn(3)]
+			s.RT, s.WT = tc[0], tc[1]
+			class += "+listener-timeouts"
+		}
+		if s.Kind == kWS && r.Intn(3) == 0 {
+			s.TLSUp = true
+			class += "+tls-upstream"
+		}
+		if !s.CliCW {
+			class += "/client-conn-without-CloseWrite"
+		}
 		s.Class = class
 		scripts = append(scripts, s)
 	}
 
 	// 1. tcp / tcp-dynamic: every closing discipline x PROXY on/off x payload sizes
 	for _, kind := range []int{kTCP, kDyn} {
-		for e := 0; e < 7; e++ {
+		for e := 0; e < 9; e++ {
 			reps := run.Scale(5, 30)
 			for i := 0; i < reps; i++ {
 				s := g.base(kind, i%5 == 4)
@@ -1057,6 +1227,38 @@ func main() {
 		g.ending(s, 0)
 		s.UTrig = uAtConnect
 		add(s, kindName[s.Kind]+"-duplex-both-directions-busy")
+	}
+
+	// directed: half-close with large replies (an abortive close would cut them), all paths but ws here
+	for i := 0; i < run.Scale(6, 30); i++ {
+		s := g.base([]int{kTCP, kDyn}[i%2], false)
+		m := 65536 + r.Intn(80000)
+		s.Reply, s.RLit = payload(r, m), 0
+		g.ending(s, 2)
+		if i%3 == 2 {
+			s.UTrig = uAtConnect // the reply races with the client's EOF
+		}
+		add(s, kindName[s.Kind]+"-half-close-large-reply")
+	}
+
+	// directed: a listener with a write timeout (with and without a read timeout) and an upstream
+	// that pauses mid-reply for longer than it while the client silently reads
+	for i := 0; i < run.Scale(9, 36); i++ {
+		s := g.base([]int{kTCP, kDyn, kTCP}[i%3], false)
+		m := 1500 + r.Intn(1500)
+		s.Reply, s.RLit = payload(r, m), m
+		if m > 1500 {
+			s.RLit = 0
+		}
+		s.RSeg1 = 1 + r.Intn(m-1)
+		name := g.ending(s, []int{0, 3, 4, 2}[i%4])
+		add(s, kindName[s.Kind]+"-upstream-pauses-mid-reply-"+name)
+		last := scripts[len(scripts)-1]
+		last.WT = 50 * time.Millisecond
+		last.RT = []time.Duration{0, 0, 3 * time.Second}[i%3]
+		if !strings.Contains(last.Class, "+listener-timeouts") {
+			last.Class += "+listener-timeouts"
+		}
 	}
 
 	// 2. tcp+sni
@@ -1112,7 +1314,7 @@ func main() {
 			class = "sni-random-segmentation"
 		}
 		// keep a symbolic tail either empty or long (see describe)
-		name := g.ending(s, []int{1, 0, 2, 3, 4, 1, 3}[r.Intn(7)])
+		name := g.ending(s, []int{1, 0, 2, 3, 4, 1, 3, 7, 8, 2}[r.Intn(10)])
 		if i%23 == 7 { // not a routable hello: nothing is tunnelled
 			s.Stream[5] = 2
 			class = "sni-not-a-hello"
@@ -1161,7 +1363,7 @@ func main() {
 			s.RSeg1 = 13 + r.Intn(len(head)-13)
 			class += "-split-head"
 		}
-		name := g.ending(s, []int{0, 3, 4, 0, 2}[r.Intn(5)])
+		name := g.ending(s, []int{0, 3, 4, 0, 2, 7, 8, 2}[r.Intn(8)])
 		if r.Intn(2) == 0 && s.UTrig == uAfterBytes {
 			s.UTrig = uAtConnect // head and payload leave together
 		}
@@ -1270,7 +1472,7 @@ func main() {
 			replays++
 		}
 		sample := map[string]interface{}{"kind": kindName[s.Kind], "pxyproto": s.PP, "client": s.Remote.String(), "listener": s.Local.String(),
-			"stream_len": len(s.Stream), "segments": len(s.Segs), "first_segment": firstSeg(s), "cwait": s.CWait, "cend": cendCoq[s.CEnd], "last_read_err": []string{"separate EOF", "EOF with data", "", "", "", "", "", "", "", "error with data"}[s.Fin],
+			"stream_len": len(s.Stream), "segments": len(s.Segs), "first_segment": firstSeg(s), "client_conn_has_CloseWrite": s.CliCW, "client_saw_eof": o.ClEOF, "listener_read_timeout": s.RT.String(), "listener_write_timeout": s.WT.String(), "tls_upstream": s.TLSUp, "segments_after_barrier": s.Barrier, "ended_by_itself": o.Ended, "cwait": s.CWait, "cend": cendCoq[s.CEnd], "last_read_err": []string{"separate EOF", "EOF with data", "", "", "", "", "", "", "", "error with data"}[s.Fin],
 			"utrig": []string{"at-connect", "after-bytes " + strconv.Itoa(s.UN), "on-eof"}[s.UTrig], "reply_len": len(s.Reply), "rseg1": s.RSeg1, "uend": uendCoq[s.UEnd],
 			"upstream_got": len(o.Up), "client_got": len(o.Cl), "connected": o.Conn, "runs": results[i].runs}
 		id := run.Add(s.Class, coqScript(s, o), sample)
@@ -1290,7 +1492,7 @@ func main() {
 	// several MiB (more than the socket buffers) in 50000-byte segments, then a full close;
 	// the upstream reads 32 KiB per millisecond and never replies.  One at a time.
 	bulkRuns := 0
-	for i := 0; i < run.Scale(3, 12); i++ {
+	for i := 0; i < run.Scale(6, 18); i++ {
 		kind := []int{kTCP, kSNI, kDyn}[i%3]
 		s := &script{Kind: kind, PP: r.Intn(2) == 0, Local: randAddr(r), Remote: randAddr(r),
 			CEnd: cClose, UEnd: uStay, UTrig: uOnEOF, Slow: true, Bulk: true}
@@ -1317,6 +1519,12 @@ func main() {
 			left -= k
 		}
 		s.Class = kindName[kind] + "-client-finishes-first-slow-upstream"
+		if i >= 3 && i%2 == 1 {
+			// the client's connection fails right after its last bytes (they arrive together with the
+			// error): the tunnel ends at once while the proxy still holds megabytes for the upstream
+			s.Fin = 9
+			s.Class += "+error-with-last-bytes"
+		}
 		o, nruns := runCase(s)
 		bulkRuns += nruns
 		sample := map[string]interface{}{"kind": kindName[kind], "pxyproto": s.PP, "client": s.Remote.String(), "listener": s.Local.String(),
